@@ -102,6 +102,9 @@ def labware_op(name, sign, exc, limit_clause):
             ("entry-is-a-snapshot", "not_aliased(last(self._history), self._volumes)", ["C11"]),
             ("frame", "fields_unchanged(self, old_self, ['_volumes', '_history', '_labels'])", ["C02", "C04", "C11"]),
         ],
+        updates={"self._volumes": f"{op}(self._volumes, contrib(self, wells, volumes))",
+                 "self._history": f"self._history + [{op}(self._volumes, contrib(self, wells, volumes))]",
+                 "self._labels": "self._labels + [label]"},
         exc_ensures=[
             ("history-unchanged", "same(self._history, old_self._history) and same(self._labels, old_self._labels)", ["C11"]),
             ("offending-step-not-applied", f"(same(self._volumes, {op}(old_self._volumes, contrib_upto(self, wells, volumes, loop_index()))) if in_loop() else same(self._volumes, old_self._volumes))", ["C02"]),
